@@ -276,7 +276,11 @@ var perturbations = []perturbation{
 		if rules == nil || rules.K != 'a' {
 			return nil, false
 		}
-		rules.A = append(rules.A, JObj(KV{"variation", JInt(0)}, KV{"id", JStr("appended")}, KV{"clauses", JArr()}, KV{"trackEvents", JBool(true)}))
+		id, te := "appended", true
+		if did, dte, ok := decidingRule(c, base); ok && len(c.Top.Doc.Text())%2 == 0 { // rule ids need not be unique: the index decides
+			id, te = did, !dte
+		}
+		rules.A = append(rules.A, JObj(KV{"variation", JInt(0)}, KV{"id", JStr(id)}, KV{"clauses", JArr()}, KV{"trackEvents", JBool(te)}))
 		return d, true
 	}},
 	{name: "insert_dead_rule", shift: true, apply: func(c *EvalCase, base *Out) (*EvalCase, bool) {
@@ -306,7 +310,11 @@ var perturbations = []perturbation{
 			d.Segs = append(d.Segs, Item{Key: "zz-dead", Form: 1, Doc: seg})
 			cl = JObj(KV{"attribute", JStr("")}, KV{"op", JStr("segmentMatch")}, KV{"values", JArr(JStr("zz-dead"))}, KV{"negate", JBool(false)})
 		}
-		dead := JObj(KV{"variation", JInt(0)}, KV{"id", JStr("dead")}, KV{"clauses", JArr(cl)}, KV{"trackEvents", JBool(true)})
+		id, te := "dead", true
+		if did, dte, ok := decidingRule(c, base); ok && len(c.Top.Doc.Text())%3 != 0 { // the same id as the deciding rule, tracked differently
+			id, te = did, !dte
+		}
+		dead := JObj(KV{"variation", JInt(0)}, KV{"id", JStr(id)}, KV{"clauses", JArr(cl)}, KV{"trackEvents", JBool(te)})
 		rules.A = append([]*J{dead}, rules.A...)
 		return d, true
 	}},
@@ -321,7 +329,27 @@ func shiftedProj(o *Out, by int64) string {
 		i := o.RKind.at(1).atomZ().Int64() + by
 		rk = L(A(4), AZ(i), o.RKind.at(2)).String()
 	}
-	return o.Value.String() + o.Index.String() + rk + o.Reason.at(1).String()
+	return o.Value.String() + o.Index.String() + rk + o.Reason.at(1).String() + fmt.Sprintf(" isExperiment=%v", o.IsExp)
+}
+
+// decidingRule: id and trackEvents of the rule that decided the base case, if one did
+func decidingRule(c *EvalCase, base *Out) (string, bool, bool) {
+	if base.Status != 1 || base.RTag != 4 {
+		return "", false, false
+	}
+	rules := c.Top.Doc.Get("rules")
+	i := int(base.RKind.at(1).atomZ().Int64())
+	if rules == nil || rules.K != 'a' || i < 0 || i >= len(rules.A) || rules.A[i].K != 'o' {
+		return "", false, false
+	}
+	id, te := "", false
+	if v := rules.A[i].Get("id"); v != nil && v.K == 's' {
+		id = v.S
+	}
+	if v := rules.A[i].Get("trackEvents"); v != nil && v.K == 'b' {
+		te = v.B
+	}
+	return id, te, id != ""
 }
 
 func cmdPerturb(prop string, n int, seed uint64, driver, out string) (*Result, error) {
